@@ -12,6 +12,7 @@ import (
 	"io"
 	"net"
 	"net/http"
+	"runtime"
 	"strconv"
 	"strings"
 	"sync"
@@ -78,6 +79,10 @@ func (o *Out) viol(key, what string) {
 	if len(o.Violations) < 8 {
 		o.Violations = append(o.Violations, Viol{"C14", key, what})
 	}
+}
+
+func (o *Out) violp(prop, key, what string) {
+	o.Violations = append(o.Violations, Viol{prop, key, what})
 }
 
 // ---------------------------------------------------------------------------
@@ -787,6 +792,134 @@ func runFull(c *Case, out *Out) {
 	}
 }
 
+// runKillFetch: a torrent whose only source is a web seed that accepts the
+// request and then stalls (before the headers, or in the middle of the body) is
+// deleted while the fetch is outstanding.  C17: once the deletion has completed
+// the fetch is over - its request is closed and its goroutine has returned.
+func runKillFetch(c *Case, out *Out) {
+	seed := uint64(c.ID) + 77
+	spec := mktor.Spec{Name: "kf.bin", PieceLen: 4 * CS, Length: 3*4*CS - 300, Seed: seed}
+	ln, err := net.Listen("tcp4", "127.0.0.1:0")
+	if err != nil {
+		out.Note = err.Error()
+		return
+	}
+	arrived := make(chan struct{}, 16)
+	closed := make(chan struct{}, 16)
+	srv := &http.Server{Handler: http.HandlerFunc(func(w http.ResponseWriter, r *http.Request) {
+		if c.Server == "stall-mid-body" {
+			n := 4 * CS
+			if c.Layout == "hoffman" {
+				var a, b int
+				fmt.Sscanf(r.URL.Query().Get("ranges"), "%d-%d", &a, &b)
+				n = b - a
+				w.Header().Set("Content-Length", fmt.Sprint(n))
+			} else {
+				var o, e int64
+				fmt.Sscanf(r.Header.Get("Range"), "bytes=%d-%d", &o, &e)
+				n = int(e - o + 1)
+				w.Header().Set("Content-Range", fmt.Sprintf("bytes %d-%d/%d", o, e, spec.Length))
+				w.Header().Set("Content-Length", fmt.Sprint(n))
+				w.WriteHeader(206)
+			}
+			w.Write(make([]byte, n/2))
+			w.(http.Flusher).Flush()
+		}
+		arrived <- struct{}{}
+		<-r.Context().Done()
+		closed <- struct{}{}
+	})}
+	go srv.Serve(ln)
+	defer srv.Close()
+	url := "http://" + ln.Addr().String()
+	if c.Layout == "hoffman" {
+		spec.HTTPSeeds = []string{url + "/seed.php"}
+	} else {
+		spec.Webseeds = []string{url + "/base/"}
+	}
+	t, err := mktor.New(spec, "")
+	if err != nil {
+		out.Note = "torrent: " + err.Error()
+		return
+	}
+	if len(t.Webseeds()) != 1 {
+		out.Note = fmt.Sprintf("%d web seeds", len(t.Webseeds()))
+		return
+	}
+	config.SetIdleRate(0)
+	config.PrefetchRate = 2e6
+	ctx, cancel := context.WithCancel(context.Background())
+	defer cancel()
+	t, err = tor.AddTorrent(ctx, t)
+	if err != nil {
+		out.Note = err.Error()
+		return
+	}
+	killed := false
+	defer func() {
+		if !killed {
+			k, c2 := context.WithTimeout(context.Background(), 5*time.Second)
+			t.Kill(k)
+			c2()
+		}
+	}()
+	if err := t.SetConf(peer.TorConf{UseWebseeds: true}); err != nil {
+		out.Note = "SetConf: " + err.Error()
+		return
+	}
+	if _, _, err := t.Request(0, 1, true, true); err != nil {
+		out.Note = "Request: " + err.Error()
+		return
+	}
+	desc := fmt.Sprintf("%s seed, server %s", c.Layout, c.Server)
+	select {
+	case <-arrived:
+	case <-time.After(20 * time.Second):
+		out.Note = "no fetch was started within 20 s (" + desc + ")"
+		return
+	}
+	k, c2 := context.WithTimeout(context.Background(), 10*time.Second)
+	err = t.Kill(k)
+	c2()
+	killed = true
+	if err != nil {
+		out.violp("C17", "kill-hang", fmt.Sprintf("Kill: %v (%s)", err, desc))
+		return
+	}
+	select {
+	case <-t.Deleted:
+	case <-time.After(5 * time.Second):
+		out.violp("C17", "not-deleted", "Deleted is not closed after Kill returned ("+desc+")")
+		return
+	}
+	select {
+	case <-closed:
+	case <-time.After(4 * time.Second):
+		out.violp("C17", "webseed-fetch-left", "the request to the web seed is still open 4 s after the deletion of the torrent completed: the fetch (and its goroutine) outlives the torrent ("+desc+")")
+		return
+	}
+	// ... and the fetch's goroutine has returned
+	left := ""
+	for n := 0; n < 150; n++ {
+		buf := make([]byte, 1<<18)
+		st := string(buf[:runtime.Stack(buf, true)])
+		left = ""
+		for _, g := range strings.Split(st, "\n\n") {
+			if strings.Contains(g, "storrent/webseed.") || strings.Contains(g, "storrent/tor.webseed") {
+				left = g
+			}
+		}
+		if left == "" {
+			break
+		}
+		time.Sleep(20 * time.Millisecond)
+	}
+	if left != "" {
+		out.violp("C17", "goroutines-left", "a web-seed goroutine of the torrent is still running 3 s after its deletion completed ("+desc+"): "+strings.SplitN(left, "\n", 3)[1])
+	}
+	out.Observed = "fetch closed with the torrent"
+}
+
 // Handle is the worker-side entry point.
 func Handle(in []byte) any {
 	var c Case
@@ -795,6 +928,8 @@ func Handle(in []byte) any {
 	}
 	out := &Out{ID: c.ID}
 	switch c.Kind {
+	case "killfetch":
+		runKillFetch(&c, out)
 	case "files":
 		runFiles(&c, out)
 	case "farfiles":
